@@ -120,7 +120,10 @@ func build(r Round) *flamego.Flame {
 	}
 	echo := func(marker, urlName string) []flamego.Handler {
 		pre := func(c flamego.Context, t *token) {
-			if c.Request().Header.Get("X-Scratch") != "" {
+			if c.Request().Header.Get("X-Scratch") != "" && len(c.Params()) > 1 {
+				// (only where the route has binds: the map then holds this request's
+				// values and cannot be shared; a route without binds may hand every
+				// request the same read-only map, which nobody could tell)
 				c.Params()["scratch"] = t.v
 			}
 			yield()
@@ -254,12 +257,23 @@ func serve(f *flamego.Flame, q Req) (r resp) {
 		if j := strings.Index(body[i:], "</title>"); j >= 0 {
 			body = body[i : i+j]
 		}
+	} else if spy.Status() == http.StatusInternalServerError && strings.Contains(body, "goroutine ") {
+		// a recovery page with a stack but without a title element: only whether
+		// it shows this request's panic text
+		if i := strings.Index(body, "boom "); i >= 0 {
+			body = "stack page showing " + strings.FieldsFunc(body[i+5:]+" ", func(r rune) bool { return r == ' ' || r == '<' || r == '\n' || r == '"' || r == '&' })[0]
+		} else {
+			body = "stack page"
+		}
 	}
 	r = resp{status: spy.Status(), body: body, headers: strings.Join(hs, "\n")}
 	if q.OwnLog {
 		if v, ok := ownLogs.LoadAndDelete(q.Token); ok {
 			text := v.(*lockedBuf).String()
 			r.ownLog = fmt.Sprintf("started=%d completed=%d", strings.Count(text, "Started"), strings.Count(text, "Completed"))
+			if text == "" {
+				r.ownLog = "nothing logged"
+			}
 		} else {
 			r.ownLog = "no logger registered"
 		}
@@ -296,6 +310,12 @@ func checkRound(r Round) (out evid.Outcome) {
 	want := make([]resp, len(r.Pool))
 	for i, q := range r.Pool {
 		want[i] = serve(build(r), q)
+		if q.OwnLog && (want[i].ownLog == "nothing logged" || want[i].ownLog == "no logger registered") && want[i].escaped == "" {
+			// the comparison below holds an implementation against itself; that the
+			// Logger middleware writes to the *log.Logger mapped for this request
+			// (the nearest registration) is asserted here, on the request served alone
+			return evid.Fail("own-logger-unused", "request %+v mapped a *log.Logger of its own before the Logger middleware, which wrote nothing to it (%s): the handler did not get its own request's injected value", q, want[i].ownLog)
+		}
 	}
 	type bad struct {
 		g, i int
@@ -318,7 +338,6 @@ func checkRound(r Round) (out evid.Outcome) {
 				q.Token = uniq
 				got := serve(b, q)
 				got.body = strings.ReplaceAll(got.body, uniq, r.Pool[i].Token)
-				got.headers = strings.ReplaceAll(got.headers, uniq, r.Pool[i].Token)
 				got.headers = strings.ReplaceAll(got.headers, uniq, r.Pool[i].Token)
 				if got != want[i] {
 					mu.Lock()
